@@ -16,7 +16,7 @@ import (
 	"verif/harness/kit"
 )
 
-const hangAfter = 20 * time.Second
+const hangAfter = 10 * time.Second
 
 var watch struct {
 	sync.Mutex
